@@ -1,5 +1,6 @@
 import Astral.Gen.Locations
 import Astral.Model.Dms
+import Astral.Model.Geocoder
 /-
   C18 — every built-in location is well-formed and geographically self-consistent.
 
@@ -71,6 +72,19 @@ theorem noon_window (std lon : Int) (h : offsetConsistent std lon = true) :
   rcases h with h | h
   · exact ⟨(std * 15 * 1000000 - lon) / (86400 * 15 * 1000000), by omega, by omega⟩
   · exact ⟨(std * 15 * 1000000 - lon) / (86400 * 15 * 1000000) + 1, by omega, by omega⟩
+
+/-- the time-zone group keys the built-in records create (`_sanitize_key` of the part of the
+    zone name before the first `/`) -/
+def groupKeys : List (List Nat) := locations.map (fun r => sanitize (timezoneGroup (field r 2)))
+
+set_option maxRecDepth 1000000 in
+/-- **no built-in location is shadowed by a group**: `lookup` tries group names first, so a
+    record whose (sanitised) name equalled a time-zone group key could not be found by its bare
+    name.  No such record exists in the table as it stands in /repo now. -/
+theorem builtin_names_not_groups :
+    locations.all (fun r => !(groupKeys.contains (sanitize (field r 0)))) = true := by
+  decide +kernel
+
 
 /-- the recogniser is what the parse theorems of C16 are about: e.g. London's row -/
 example : coordMicroArcsec [53, 49, 176, 51, 48, 39, 78] = some (185400 * 1000000) := by decide
